@@ -25,7 +25,10 @@ RULE = ("spea2: exhaustive 1-objective/2-objective tiny populations (n<=4, value
         "rows at the 1e6 ASF weight, fronts scaled to the 1e-6 intercept guard, shared objective prefixes "
         "for the log-time sort; four populations of 180-220 individuals in 46-70 small fronts with niche counts "
         "beyond 127), called as selNSGA3(pop,k,refs) / (…,nd) / (…,nd=,return_memory=True) / through the class, "
-        "k in 1..n, both nd back-ends, generator reference "
+        "three-to-five-objective grids of 200-300 individuals with more than 128 distinct fitnesses through the "
+        "log-time sort; 430-470 individuals x 495 reference points (5 objectives, p=8), also on associate_to_niche "
+        "directly; SPEA2 populations with one objective at 1e16..1e18 next to unit-scale ones, dominated before "
+        "dominator; k in 1..n, both nd back-ends, generator reference "
         "points M=nobj, p in 1..8, scaling none or 1/2, plain and with memory over 3 consecutive calls; "
         "niching/associate/find_intercepts also driven directly on synthetic inputs; refs: every M in 1..6 x p in 1..8 x "
         "scaling in {none,1/2,1/4,3/4,1/3}; qsel: random arrays with duplicates. Non-trivial = distinct case that "
@@ -269,12 +272,9 @@ class Capture(object):
 def perp_distances(fn, refs):
     """distance of the point fn to the line through 0 and each reference point (independent formula:
     fn minus its orthogonal projection on the unit direction)."""
-    out = []
-    for r in refs:
-        u = r / math.sqrt(float(numpy.dot(r, r)))
-        t = float(numpy.dot(fn, u))
-        out.append(float(numpy.sqrt(numpy.sum((fn - t * u) ** 2))))
-    return out
+    U = refs / numpy.sqrt(numpy.sum(refs * refs, axis=1))[:, None]
+    t = U.dot(fn)
+    return numpy.sqrt(numpy.sum((fn[None, :] - t[:, None] * U) ** 2, axis=1))
 
 
 def assoc_oracle(fitnesses, refs, best, intercepts, niches, dist):
@@ -282,12 +282,13 @@ def assoc_oracle(fitnesses, refs, best, intercepts, niches, dist):
     the normalised objective space; returns (message or None, has_near_tie)."""
     near = False
     denom = intercepts - best + EPS
+    refs = numpy.asarray(refs, dtype=float)
     for i in range(len(fitnesses)):
         fn = (fitnesses[i] - best) / denom
         if not numpy.all(numpy.isfinite(fn)):
             continue
         ds = perp_distances(fn, refs)
-        m = min(ds)
+        m = float(numpy.min(ds))
         scale = max(1.0, float(numpy.max(numpy.abs(fn))))
         tol = 1e-9 * scale
         j = int(niches[i])
@@ -295,10 +296,10 @@ def assoc_oracle(fitnesses, refs, best, intercepts, niches, dist):
             return "individual %d associated with niche %r outside the reference set" % (i, j), near
         if ds[j] > m + tol:
             return ("individual %d associated with reference %d at perpendicular distance %.12g although "
-                    "reference %d is at %.12g" % (i, j, ds[j], ds.index(m), m)), near
+                    "reference %d is at %.12g" % (i, j, ds[j], int(numpy.argmin(ds)), m)), near
         if abs(float(dist[i]) - ds[j]) > tol:
             return "individual %d: reported distance %.12g, perpendicular distance %.12g" % (i, float(dist[i]), ds[j]), near
-        if sum(1 for d in ds if d <= m + 1e-7 * scale) > 1:
+        if int(numpy.sum(ds <= m + 1e-7 * scale)) > 1:
             near = True
     return None, near
 
@@ -525,7 +526,14 @@ def eval_spea2(d):
             msg = "dominated individuals %s selected although %d >= k=%d individuals are non-dominated" % (
                 sorted(set(pos) - set(nd)), len(nd), k)
     branch = "exact" if len(nd) == k else ("small" if len(nd) < k else "large")
-    D = [[sum((Fr(a) - Fr(b)) ** 2 for a, b in zip(vals[i], vals[j])) for j in range(n)] for i in range(n)]
+    def fdist(a, b):
+        acc = 0.0
+        for x, y in zip(a, b):
+            v = x - y
+            acc += v * v
+        return acc
+    fv = [tuple(ind.fitness.values) for ind in pop]
+    D = [[Fr(fdist(fv[min(i, j)], fv[max(i, j)])) for j in range(n)] for i in range(n)]
     fits = cap.get("fits", [])
     fits_tok = rlist([Fr(x) for x in fits]) if branch == "small" and len(fits) == n else "-"
     line = "C07 spea2 %s %d %s %s" % (rlist2(wv), k, fits_tok, rlist2(D))
@@ -559,7 +567,7 @@ def eval_nsga3(d):
             elif call == "plain":
                 sel = tools.selNSGA3(pop, k, refs)                       # the documented plain form
                 memory = None
-            elif call == "nd":
+            elif call in ("nd", "plain_nd"):
                 sel = tools.selNSGA3(pop, k, refs, d["nd"])
                 memory = None
             else:
@@ -669,7 +677,7 @@ def eval_assoc(d):
     op = "assocd" if near else "assoc"
     line = "C07 %s %s %s %s %s" % (op, flist2(fits), flist2(refs), flist(best), flist(inter))
     exp = flist(dist) if near else "%s %s" % (ilist(niches), flist(dist))
-    return Case(d, [line], [exp], msg, tag="assoc/m=%d%s" % (d["M"], "/tie" if near else ""), tol=1e-9)
+    return Case(d, [line], [exp], msg, tag="assoc/m=%d%s%s" % (d["M"], "/tie" if near else "", "/wide" if d.get("shape") == "wide" else ""), tol=1e-9)
 
 
 def eval_refs(d):
@@ -914,6 +922,63 @@ def gen_big(rng, variant):
             "shape": "big", "seed": rng.randrange(1 << 30), "vals": vals, "kk": k, "call": "kw"}
 
 
+def gen_spea2_absorb(rng):
+    """mixed magnitudes: one objective around 1e16..1e18 (ulp >= 2) next to unit-scale objectives, with
+    dominated individuals standing BEFORE their dominators, so that any shortcut through sums, norms or
+    other aggregates of the weighted values (which absorb the small objective) is visible."""
+    m = rng.randint(2, 4)
+    w = [rng.choice(["-1", "1", "-1", "2", "-1/2"]) for _ in range(m)]
+    big = rng.randrange(m)
+    scale = rng.choice([1e16, 1e17, 1e17, 1e18])
+    n = rng.randint(3, 9)
+    heads = [scale * (1 + rng.randint(0, 3) * 2.0 ** -40) for _ in range(rng.randint(1, 3))]
+    pts = []                    # minimisation form
+    for _ in range(n):
+        pts.append([rng.choice(heads) if t == big else float(rng.randint(0, 4)) for t in range(m)])
+    # put dominated ones first (worse = larger in minimisation form): sort descending by the small parts
+    if rng.random() < 0.7:
+        pts.sort(key=lambda p: [-x for t, x in enumerate(p) if t != big])
+    vals = [[float(-Fr(x) / Fr(ww)) for x, ww in zip(pt, w)] for pt in pts]
+    wv = [tuple(Fr(x) * Fr(ww) for x, ww in zip(v, w)) for v in vals]
+    nd = sum(1 for i in range(n) if not any(dominates(wv[j], wv[i]) for j in range(n)))
+    k = min(n, max(1, nd + rng.choice([-1, 0, 0, 1])))
+    return {"k": "spea2", "w": w, "vals": vals, "kk": k, "shape": "absorb", "seed": rng.randrange(1 << 30)}
+
+
+def gen_wide(rng, direct):
+    """many individuals x many reference points (n * M * |refs| well above 2^20): 5 objectives, p = 8
+    (495 directions), 430..470 individuals spread over the directions."""
+    M, p = 5, 8
+    n = rng.randint(430, 470)
+    pts = []
+    for _ in range(n):
+        cut = sorted(rng.randint(0, 8) for _ in range(M - 1))
+        pt = [(b - a) / 8.0 for a, b in zip([0] + cut, cut + [8])]
+        if rng.random() < 0.3:
+            pt = [x + rng.randint(0, 2) / 64.0 for x in pt]
+        pts.append(pt)
+    if direct:
+        return {"k": "assoc", "M": M, "p": p, "scaling": None, "fits": pts, "best": [0.0] * M, "intercepts": [1.0] * M,
+                "shape": "wide"}
+    w = [rng.choice(["-1", "2", "-1/2", "1"]) for _ in range(M)]
+    vals = [[float(-Fr(x) / Fr(ww)) for x, ww in zip(pt, w)] for pt in pts]
+    return {"k": "nsga3", "w": w, "p": p, "scaling": None, "nd": rng.choice(["log", "standard"]), "shape": "wide",
+            "seed": rng.randrange(1 << 30), "vals": vals, "kk": rng.randint(n - 6, n - 1), "call": "plain_nd"}
+
+
+def gen_loggrid(rng, v):
+    """200..300 individuals with far more than 128 distinct fitnesses on a coarse grid (many tied objective
+    values), 3..5 objectives, log-time sort: the recursive helpers A/B and both sweeps are all exercised."""
+    M = 3 + v % 3
+    levels = rng.choice([6, 7, 8])
+    n = rng.randint(200, 300)
+    w = [rng.choice(["-1", "-1", "1", "2", "-1/2"]) for _ in range(M)]
+    pts = [[float(rng.randrange(levels)) for _ in range(M)] for _ in range(n)]
+    vals = [[float(-Fr(x) / Fr(ww)) for x, ww in zip(pt, w)] for pt in pts]
+    return {"k": "nsga3", "w": w, "p": rng.choice([2, 3, 4]), "scaling": None, "nd": "log", "shape": "loggrid",
+            "seed": rng.randrange(1 << 30), "vals": vals, "kk": rng.randint(n // 4, (2 * n) // 3), "call": "plain"}
+
+
 def gen_icpt(rng, shape):
     M = 2 if shape in ("ill", "ill2") else rng.randint(2, 4)
     best = [float(rng.randint(-2, 3)) for _ in range(M)]
@@ -1021,6 +1086,11 @@ def generate(tier, rng, mult):
     # large populations in many small fronts (niche counts beyond 127)
     for v in range(8 if thorough else 4):
         yield gen_big(rng, v)
+    # many individuals x many reference points; > 128 distinct fitnesses through the log-time sort
+    yield gen_wide(rng, direct=True)
+    yield gen_wide(rng, direct=False)
+    for v in range(9 if thorough else 4):
+        yield gen_loggrid(rng, v)
     # find_intercepts on its own: every branch incl. the failing allclose test
     for shape in ("ok", "sing", "zero", "tiny", "ill", "ill2", "resid", "exceeds"):
         for _ in range(40 if thorough else 8):
@@ -1038,6 +1108,8 @@ def generate(tier, rng, mult):
         if t % 4 == 0:
             yield gen_nsga3(rng, mem=True)
         yield gen_spea2(rng)
+        if t % 5 == 0:
+            yield gen_spea2_absorb(rng)
         yield gen_niching(rng)
         if t % 2 == 0:
             yield gen_assoc(rng)
